@@ -270,7 +270,7 @@ DoInputImplementation(AbstractGatewayMessageReceiver & receiver, uint32 maxBytes
                const status_t bsRet = GetBodySize(bb->GetBuffer(), bodySize);
                if (bsRet.IsOK())
                {
-                  if (bodySize <= _maxIncomingMessageSize)
+                  if ((bodySize <= _maxIncomingMessageSize)&&(WillUnsignedAddOverflow(hs, bodySize) == false))  // (hs+bodySize) is computed below and must fit in a uint32
                   {
                      const uint32 availableBodyBytes = (bb->GetNumBytes() > hs) ? (bb->GetNumBytes()-hs) : 0;
                      if (bodySize <= availableBodyBytes) bb->TruncateToLength(hs+bodySize);  // trim off any extra space we don't need
